@@ -65,6 +65,14 @@ def shapes(tier):
             for n in csweep:
                 if n * ew <= 65535:
                     add((V.INTEROP, 13, code, n))
+            # the largest arrays the 16-bit data-length prefix can announce (65535 // ew elements and one less):
+            # 16-bit loop bounds and `length + 2` computations wrap exactly here
+            top = 65535 // ew
+            add((V.INTEROP, 13, code, top))
+            if tier == 'thorough':
+                add((V.INTEROP, 13, code, top - 1))
+                add((V.STATIC, 0, code, top))
+                add((V.INTEROP, 0, code, top))
     return out
 
 
@@ -138,7 +146,7 @@ def _one(t):
         m.call(SET_PATH, [Ptr(V.PDU, 0), Ptr('pathobj', 0)])
         m.call(SET_DATA, [Ptr(V.PDU, 0), Ptr('val', 0)])
         return None
-    ws = bpa.analyse(ctx.mod, script, lambda: ([], regions()), max_worlds=32, max_steps=4000000, gcache=ctx.gcache)
+    ws = bpa.analyse(ctx.mod, script, lambda: ([], regions()), max_worlds=32, max_steps=12000000, gcache=ctx.gcache)
     desc = '%s path (%d octets) + %s x%d' % ('static-id' if mode == V.STATIC else 'interop', plen, name, count)
     key = 'encode:m%d:p%d:t%02x:n%d' % t
     where = FC.fnloc(ctx, SET_DATA)
@@ -247,6 +255,6 @@ def run(ctx, tier, res, tag=''):
 
 
 def main(tier, seed):
-    from ..ctx import Ctx
+    from ..ctx import run_all_configs
     res = Result('C07', tier, 'proof', seed)
-    return run(Ctx('le'), tier, res)
+    return run_all_configs(run, tier, res)
